@@ -563,7 +563,7 @@ func (e *Exec) stmtSQL(c *cli, table string, s Step) (string, []interface{}) {
 
 func (e *Exec) doStmt(s Step) {
 	c := e.client(s.str("c"))
-	out := map[string]interface{}{"id": s.str("id"), "kind": s.str("kind"), "key": s.str("key"), "wt": s.num("wt", -1)}
+	out := map[string]interface{}{"id": s.str("id"), "kind": s.str("kind"), "key": s.str("key"), "wt": s.num("wt", -1), "intx": s.num("intx", 0)}
 	cols := s.strmap("cols")
 	cl := []string{}
 	for n := range cols {
@@ -612,6 +612,17 @@ func (e *Exec) doStmt(s Step) {
 		out["keep_wt"] = 1
 	}
 	e.emit("stmt", s, out)
+}
+
+func (e *Exec) doTxEvent(op string, s Step, err error) {
+	c := e.client(s.str("c"))
+	out := map[string]interface{}{"outcome": classifyErr(err), "err": errStr(err)}
+	if v, verr := e.versionOf(c); verr == nil {
+		out["version"] = v
+	} else {
+		out["version"] = []string{"?"}
+	}
+	e.emit(op, s, out)
 }
 
 func (e *Exec) doTx(s Step) {
@@ -838,6 +849,9 @@ func (e *Exec) doPlan(s Step) {
 	} else if s.str("kind") == "404" {
 		kind = fault404
 	}
+	if s.has("fail_mut_at") {
+		c.fc.failMut[s.num("fail_mut_at", -1)] = kind
+	}
 	if s.has("fail_at") {
 		if s.num("persistent", 0) == 1 {
 			c.fc.failFrom = s.num("fail_at", -1)
@@ -847,7 +861,7 @@ func (e *Exec) doPlan(s Step) {
 		}
 	}
 	c.fc.pmu.Unlock()
-	e.emit("plan", s, map[string]interface{}{"crash_after": s.num("crash_after", -1), "fail_at": s.num("fail_at", -1), "kind": s.str("kind"), "persistent": s.num("persistent", 0)})
+	e.emit("plan", s, map[string]interface{}{"crash_after": s.num("crash_after", -1), "fail_at": s.num("fail_at", -1), "fail_mut_at": s.num("fail_mut_at", -1), "kind": s.str("kind"), "persistent": s.num("persistent", 0)})
 }
 
 func (e *Exec) doHeal(s Step) {
@@ -900,6 +914,12 @@ func (e *Exec) runStep(s Step) {
 		e.doStmt(s)
 	case "begin", "commit", "rollback":
 		e.doTx(s)
+	case "rollback_any":
+		// end whatever transaction may still be open; not an observation (no event unless a rollback happened)
+		c := e.client(s.str("c"))
+		if _, err := e.exec(c, "ROLLBACK"); err == nil {
+			e.doTxEvent("rollback", s, nil)
+		}
 	case "rows":
 		e.doRows(s)
 	case "select":
